@@ -184,7 +184,7 @@ def run_world(binfo, argv, plan_lines, wdir, cwd=None, env=None, stdin_data=None
     try:
         p = subprocess.run(cmd, cwd=cwd, env=e, input=stdin_data if stdin_data is not None else b"",
                            stdout=subprocess.PIPE, stderr=subprocess.PIPE,
-                           timeout=wall or (cpu * 3 + 30))
+                           timeout=wall or (cpu * 8 + 60))
         r.rc = p.returncode
         r.out, r.err = p.stdout, p.stderr
         if p.returncode < 0:
